@@ -27,8 +27,8 @@ def stable_key(name):
 
 
 def load_contracts(src):
-    import contracts.streams, contracts.binary, contracts.classes, contracts.prims, contracts.oracles  # noqa
-    for mod in ('wrappers', 'composites', 'adapters', 'bitstream', 'lazy', 'exprs', 'containers', 'codegen', 'ksy', 'lemmas', 'entry'):
+    import contracts.streams, contracts.binary, contracts.classes, contracts.prims, contracts.oracles, contracts.tables, contracts.bitstream  # noqa
+    for mod in ('wrappers', 'composites', 'adapters', 'lazy', 'exprs', 'containers', 'codegen', 'ksy', 'lemmas', 'entry'):
         try:
             __import__('contracts.' + mod)
         except ModuleNotFoundError as e:
